@@ -202,6 +202,11 @@ def c09(run):
             c2 = copy.deepcopy(c)
             c2["in"]["fallback"] = True
             extra.append(c2)
+        if c["in"]["trusted"] and len(c["in"]["ans"]) >= 2 and rnd.random() < (0.3 if quick else 1.0):
+            # replay-only: a single configured trusted peer, the same n tracked peers asked
+            c3 = copy.deepcopy(c)
+            c3["in"]["fewTrusted"] = True
+            extra.append(c3)
     # 5 and 6 asked peers (plain Head(): every trusted peer is asked): rows around the quorum threshold, built here —
     # k peers agree on A (height 5), the others report B (height 7); arrival order A-first and B-first.
     # prediction: minHeadResponses(n) = ceil(2n/3) transcribed; judged by the same property layer (QuorumAt)
